@@ -7,7 +7,7 @@ use noulith::{evaluate, initialize, parse, Env, RefCell, Rc};
 const DENY: &[&str] = &[
     "print", "echo", "write", "debug", "input", "read", "interact", "flush", "file", "list_files", "run_process", "sleep", "time", "now",
     "random", "shuffle", "choose", "import", "request", "memoize", "iota", "repeat", "cycle", "iterate", "**", ".*", "*.", "$*", "*$", "^", "<<",
-    "window", "combinations", "permutations", "subsequences", "is_prime", "factorize", "while", "til", "to", "__internal", "\u{1F409}",
+    "window", "join", "replace", "combinations", "permutations", "subsequences", "is_prime", "factorize", "while", "til", "to", "__internal", "\u{1F409}",
 ];
 
 fn depth_ok(s: &str) -> bool {
